@@ -626,13 +626,20 @@ def memberWrap (t : Ty) (s : Str) : Str :=
 def angle (xs : List Str) : Str :=
   if xs.isEmpty then [] else '<' :: sepBy [',', ' '] xs ++ ['>']
 
+/-- `matches!(name.as_str(), "int" | "bin" | "ref")` -/
+def isPrimName (n : Str) : Bool :=
+  n = ['i', 'n', 't'] || n = ['b', 'i', 'n'] || n = ['r', 'e', 'f']
+
 mutual
 /-- `render_type` -/
 def printTy : Ty → Str
   | .prim .int => ['\'', 'i', 'n', 't']
   | .prim .bin => ['\'', 'b', 'i', 'n']
   | .prim .ref => ['\'', 'r', 'e', 'f']
-  | .ident n args => '\'' :: n ++ angle (printTys args)
+  | .ident n args =>
+    -- a reference named like a primitive keeps the `<'…>` form (it would read back as the primitive)
+    if args.isEmpty && isPrimName n then '<' :: '\'' :: n ++ ['>']
+    else '\'' :: n ++ angle (printTys args)
   | .tuple name fields isPartial =>
     -- `render_tuple_type`
     let nm : Str := match name with
@@ -731,7 +738,7 @@ def fmtAlias (a : Alias) : Str :=
   | some out => out
   | none => []
 
-/-! ### Well-formed type ASTs (what the parser can produce) and the parser's canonical form -/
+/-! ### Well-formed type ASTs (what the parser can produce) -/
 
 /-- `identifier`'s language: `[a-z][A-Za-z0-9_]*\??!?` -/
 def isIdentStr : Str → Bool
@@ -794,39 +801,7 @@ end
 def WFType (t : Ty) : Prop := t.wf = true
 instance (t : Ty) : Decidable (WFType t) := inferInstanceAs (Decidable (t.wf = true))
 
-mutual
-/-- The parser's canonical form: `Identifier { name: "int" | "bin" | "ref", arguments: [] }` (which
-    only `type_parameter`, `<'int>`, produces) prints as `'int` and is read back as the primitive. -/
-def Ty.normalize : Ty → Ty
-  | .prim p => .prim p
-  | .tuple name fields isPartial => .tuple name (Field.normalizeList fields) isPartial
-  | .func i o => .func i.normalize o.normalize
-  | .union ts => .union (Ty.normalizeList ts)
-  | .inter ts => .inter (Ty.normalizeList ts)
-  | .ident n [] => identifierToType n
-  | .ident n (a :: as) => .ident n (Ty.normalizeList (a :: as))
-  | .cycle l => .cycle l
-  | .proc a r => .proc (Ty.normalizeOpt a) (Ty.normalizeOpt r)
-  | .resource n => .resource n
-  | .modty m mem args => .modty m mem (Ty.normalizeList args)
-  | .selfDefault args => .selfDefault (Ty.normalizeList args)
-def Ty.normalizeList : List Ty → List Ty
-  | [] => []
-  | t :: ts => t.normalize :: Ty.normalizeList ts
-def Ty.normalizeOpt : Option Ty → Option Ty
-  | none => none
-  | some t => some t.normalize
-def Field.normalize : Field → Field
-  | .field n t => .field n t.normalize
-  | .spread id args => .spread id (Ty.normalizeList args)
-def Field.normalizeList : List Field → List Field
-  | [] => []
-  | f :: fs => f.normalize :: Field.normalizeList fs
-end
-
 def Alias.wf (a : Alias) : Bool :=
   (match a.name with | some n => isIdentStr n | none => true) && a.params.all isIdentStr && a.ty.wf
-
-def Alias.normalize (a : Alias) : Alias := { a with ty := a.ty.normalize }
 
 end QM.Parse
